@@ -35,7 +35,7 @@ using std::vector;
 enum Kind { SET_RFC, SET_TLD, SET_ALLOW, SETUP, IS_EMAIL, ERRSTR, FREE_INIT, LOCAL, ADOM, UDOM, IP4, IP6, IPADDR, TLD, SPECIAL, EMAIL, NKINDS };
 static const char *KNAME[NKINDS] = { "SET_RFC", "SET_TLD", "SET_ALLOW", "SETUP", "IS_EMAIL", "ERRSTR", "FREE_INIT", "LOCAL", "ADOM", "UDOM", "IP4", "IP6", "IPADDR", "TLD", "SPECIAL", "EMAIL" };
 
-struct Op { int t = 0; Kind k = SETUP; long long v = 0; string a; };
+struct Op { int t = 0; Kind k = SETUP; long long v = 0; string a; int mf = 0; /* allocation fault: the mf-th malloc of this call returns NULL */ };
 struct Plan {
     string cfg = "random"; uint64_t seed = 0; long long index = -1; int nthreads = 2;
     string locale = "C";        // process locale during the run (the library must not depend on it, nor change it)
@@ -54,6 +54,7 @@ static sj::Value plan_to_json(const Plan &p) {
         sj::Value o = sj::Value::object(); o.set("t", op.t); o.set("k", KNAME[op.k]);
         if (op.k == SET_RFC || op.k == SET_TLD || op.k == SET_ALLOW || op.k == LOCAL || op.k == UDOM || op.k == EMAIL) o.set("v", op.v);
         if (op.k == IS_EMAIL || op.k >= LOCAL) o.set("a", op.a);
+        if (op.mf) o.set("mf", op.mf);
         a.push(o);
     }
     j.set("ops", a);
@@ -76,7 +77,7 @@ static Plan plan_from_json(const sj::Value &j) {
         Op op; string k = e.gets("k"); int ki = -1;
         for (int i = 0; i < NKINDS; i++) if (k == KNAME[i]) ki = i;
         if (ki < 0) continue;
-        op.k = (Kind)ki; op.t = (int)e.geti("t"); op.v = e.geti("v"); op.a = e.gets("a");
+        op.k = (Kind)ki; op.t = (int)e.geti("t"); op.v = e.geti("v"); op.a = e.gets("a"); op.mf = (int)e.geti("mf");
         if (op.t < 0) op.t = 0;
         op.t %= p.nthreads;
         if (op.a.find('\0') != string::npos) op.a = op.a.substr(0, op.a.find('\0'));
@@ -124,6 +125,7 @@ static void run_program(int tid, Shared *sh, bool concurrent) {
             at = nullptr; for (const char *q = s; q < end; q++) if (*q == '@') at = q;
             dom = at ? at + 1 : s;
         }
+        rt::arm_alloc_fault(op.mf);
         switch (op.k) {
         case SET_RFC: e->rfc = (EAV_RFC)(int)op.v; break;
         case SET_TLD: e->tld_check = op.v ? true : false; break;
@@ -192,17 +194,22 @@ static void run_program(int tid, Shared *sh, bool concurrent) {
         }
         if (concurrent && rt::thread_aborted()) break;
     }
+    rt::arm_alloc_fault(0);
     rt::enter_sut(); eav_free(e); rt::leave_sut();
     out.push_back("END");
 }
 
 static void thread_entry(int tid, void *arg) { run_program(tid, (Shared *)arg, true); }
+static void seq_entry(int tid, void *arg) { run_program(tid, (Shared *)arg, false); }
+// the library aborted / asserted inside a call of this thread: that is the outcome of the call (what matters is whether
+// the same happens when the thread runs alone)
+static void on_abort(int tid, void *arg) { ((Shared *)arg)->out[tid].push_back("ABORTED inside the library"); rt::arm_alloc_fault(0); }
 
 // ------------------------------------------------------------------ execution of one plan
 struct Viol { string cls, detail; };
 struct Stats {
     uint64_t plans = 0, steps = 0, events = 0, ctx_switches = 0, seq_steps = 0, ops = 0, lib_calls = 0, threads_hist[rt::MAXT + 1] = { 0 }, policy_hist[5] = { 0 };
-    uint64_t spin_yields = 0, inconclusive_shadow_overflow = 0, write_shared = 0, sync_ops = 0, atomic_ops = 0, pseudo_writes = 0, outcome_cmp = 0, globals_dirty_after_seq = 0, races_seen = 0;
+    uint64_t alloc_faults_attached = 0, aborted_calls = 0, spin_yields = 0, inconclusive_shadow_overflow = 0, write_shared = 0, sync_ops = 0, atomic_ops = 0, pseudo_writes = 0, outcome_cmp = 0, globals_dirty_after_seq = 0, races_seen = 0;
     std::set<uint64_t> interleavings, plan_hashes, nontrivial;
     uint64_t kind[NKINDS] = { 0 };
 };
@@ -239,7 +246,7 @@ static void run_plan(const Plan &p, bool want_log, RunOut &ro, bool count = true
         rt::reset_library_globals();
         sh.out.assign(p.nthreads, vector<string>());
         rt::begin_sequential();
-        run_program(t, &sh, false);
+        rt::run_sequential(seq_entry, t, &sh);
         seq_steps += rt::end_sequential();
         if (rt::library_globals_dirty()) dirty = true;
         seq[t] = sh.out[t];
@@ -273,7 +280,7 @@ static void run_plan(const Plan &p, bool want_log, RunOut &ro, bool count = true
     // ---- oracle 3: progress
     if (res.deadlock) viol("C14:deadlock", "all unfinished threads are blocked");
     if (res.budget_exceeded) viol("C14:no-progress", "run exceeded 20x the sequential step count");
-    if (!res.abort_what.empty() && !res.budget_exceeded && !res.deadlock) viol("C14:abort-in-thread", res.abort_what);
+    // (an abort/assert inside the library is an outcome: it is compared with the sequential run below)
     // more distinct bytes touched than the detector can shadow: this run cannot be judged for races - counted, not an alarm
     if (res.shadow_overflow) { ST.inconclusive_shadow_overflow++; rec("INCONCLUSIVE shadow table full"); }
     // ---- oracle 2: concurrent = sequential
@@ -298,7 +305,8 @@ static void run_plan(const Plan &p, bool want_log, RunOut &ro, bool count = true
         ST.write_shared += res.write_shared_locations; ST.sync_ops += res.sync_ops; ST.atomic_ops += res.atomic_ops; ST.pseudo_writes += res.pseudo_writes; ST.spin_yields += res.spin_yields;
         if (dirty) ST.globals_dirty_after_seq++;
         ST.races_seen += res.races.size();
-        for (auto &op : p.ops) ST.kind[op.k]++;
+        for (auto &op : p.ops) { ST.kind[op.k]++; if (op.mf) ST.alloc_faults_attached++; }
+        for (int t = 0; t < p.nthreads; t++) for (auto &l : sh.out[t]) if (l.compare(0, 7, "ABORTED") == 0) ST.aborted_calls++;
         if (ST.interleavings.size() < 4000000) ST.interleavings.insert(res.interleaving_hash);
         string oj = sj::dump(plan_to_json(p));
         uint64_t ph = sim_fnv1a(SIM_FNV_INIT, oj.data(), oj.size());
@@ -407,6 +415,7 @@ static Plan gen_plan(const string &cfg, uint64_t seed, long long index) {
         for (int i = 0; i < np; i++) { auto &pr = g_pairs[sim_below(&w, g_pairs.size())]; pool.push_back(pr.first); pool.push_back(pr.second); }
     }
     unsigned p_low = (unsigned)sim_below(&w, 60), p_set = 5 + (unsigned)sim_below(&w, 25);
+    unsigned p_alloc = sim_below(&w, 6) == 0 ? 5 + (unsigned)sim_below(&w, 30) : 0;     // one plan in six injects allocation failures
     bool same_program = sim_below(&w, 4) == 0;    // all threads run the same calls: maximal overlap
     vector<Op> proto;
     for (int t = 0; t < p.nthreads; t++) {
@@ -430,6 +439,7 @@ static Plan gen_plan(const string &cfg, uint64_t seed, long long index) {
                     op.k = LK[sim_below(&w, 12)]; op.a = pool[sim_below(&w, pool.size())];
                     op.v = op.k == EMAIL ? (long long)sim_below(&w, 8) : op.k == LOCAL ? (long long)sim_below(&w, 4) : (long long)sim_below(&w, 2);
                 } else { op.k = IS_EMAIL; op.a = pool[sim_below(&w, pool.size())]; }
+                if (p_alloc && (op.k == IS_EMAIL || op.k == EMAIL) && sim_below(&w, 100) < p_alloc) op.mf = 1 + (int)sim_below(&w, 2);
                 mine.push_back(op);
             }
             if (t == 0) proto = mine;
@@ -469,6 +479,7 @@ static sj::Value stats_json() {
     sj::Value j = sj::Value::object();
     j.set("plans", ST.plans); j.set("steps", ST.steps); j.set("logged_events", ST.events); j.set("context_switches", ST.ctx_switches); j.set("sequential_steps", ST.seq_steps);
     j.set("ops", ST.ops); j.set("outcome_comparisons", ST.outcome_cmp); j.set("write_shared_locations", ST.write_shared);
+    j.set("alloc_faults_attached", ST.alloc_faults_attached); j.set("calls_aborted_inside_library", ST.aborted_calls);
     j.set("sync_ops", ST.sync_ops); j.set("atomic_ops", ST.atomic_ops); j.set("spin_yields", ST.spin_yields); j.set("hidden_state_libc_calls", ST.pseudo_writes);
     j.set("plans_where_library_statics_changed", ST.globals_dirty_after_seq); j.set("racing_pairs_seen", ST.races_seen);
     j.set("library_writable_static_bytes", (long long)rt::library_writable_bytes());
@@ -490,6 +501,7 @@ int main(int argc, char **argv) {
     int cpu = atoi(arg(argc, argv, "--cpu", "-1"));
     if (cpu >= 0) { cpu_set_t cs; CPU_ZERO(&cs); CPU_SET(cpu % (int)sysconf(_SC_NPROCESSORS_ONLN), &cs); sched_setaffinity(0, sizeof cs, &cs); }
     rt::init();
+    rt::set_abort_hook(on_abort);
     string cfg = arg(argc, argv, "--cfg", "swarm");
     uint64_t seed = strtoull(arg(argc, argv, "--seed", "20261001"), nullptr, 10);
     if (mode == "exec") {
